@@ -23,14 +23,16 @@ import conc
 import driver
 
 PROPERTIES_FILE = "Properties/Properties_C02_mainq.v"
-COQ_DEPS = ["Proofs/MainQ_proofs.vo", "Model/MainQT.vo"]
-GEN_MODULES = ["Gen_dqstate"]
+COQ_DEPS = ["Proofs/MainQ_proofs.vo", "Proofs/MainQ_extra.vo", "Model/MainQT.vo", "Proofs/MainQT_sites.vo"]
+GEN_MODULES = ["Gen_dqstate", "Gen_mainq", "Gen_lanesites", "Gen_fields"]
 LEVEL = "proof"
 TRUSTED = [
     "Model/MainQ.v (global model of the thread-bound main queue and of its hand-over to the lane protocol at dispatch_main()) is "
     "hand-written control flow around generated pieces: every dq_state transition is a Gen_dqstate body; the MPSC list, the eventfd "
     "counter and the thread events are hand-modelled.  It is tied to the running library by Model/MainQT.v: every recorded thread "
-    "trace of the stress runs must be accepted by MainQT.tstep (evaluated in Coq), which follows MainQ's program points one to one",
+    "trace of the stress runs must be accepted by MainQT.tstep (evaluated in Coq), which follows MainQ's program points one to one; "
+    "MainQT's atomic sites (kind, word, memory order, program order) are proved equal to the site lists src2v reads from the source "
+    "of the main-queue functions on every run (C02_mainq_sites_match, module Gen_mainq of src2v/targets.json)",
     "atomicity: each os_atomic_* operation is one step, an rmw loop is its successful compare-exchange; sequentially consistent "
     "interleaving (the C11 memory model is not formalised)",
     "kernel: eventfd_write adds to the counter, the bound thread's read resets it; futex_wait may return spuriously, FUTEX_WAKE wakes "
@@ -154,17 +156,17 @@ def normalise(lay, per):
 
 
 def coq_conform(name, jobs, chunk_events=5000, timeout=900):
-    """jobs: list of (self, ismain, floor, [NEv]) -> list of int lists [idx, idle, counts...]"""
+    """jobs: list of (self, ismain, floor, main, [NEv]) -> list of int lists [idx, idle, counts...]"""
     res, i, ci = [], 0, 0
     while i < len(jobs):
         part, n = [], 0
-        while i < len(jobs) and (not part or n + len(jobs[i][3]) <= chunk_events):
+        while i < len(jobs) and (not part or n + len(jobs[i][4]) <= chunk_events):
             part.append(jobs[i])
-            n += len(jobs[i][3])
+            n += len(jobs[i][4])
             i += 1
-        rows = ["(%d, %d, %d, [%s])" % (sv, im, fl, "; ".join(e.coq() for e in tr)) for (sv, im, fl, tr) in part]
-        body = ["Definition jobs : list (Z * Z * Z * list event) := [", ";\n".join(rows), "].",
-                "Eval vm_compute in map (fun '(sv, im, fl, tr) => conform sv im fl tr) jobs."]
+        rows = ["(%d, %d, %d, %d, [%s])" % (sv, im, fl, mn, "; ".join(e.coq() for e in tr)) for (sv, im, fl, mn, tr) in part]
+        body = ["Definition jobs : list (Z * Z * Z * Z * list event) := [", ";\n".join(rows), "].",
+                "Eval vm_compute in map (fun '(sv, im, fl, mn, tr) => conform sv im fl mn tr) jobs."]
         ok, vals, raw = driver.coq_eval("%s_%d" % (name, ci), IMPORTS, "\n".join(body) + "\n", timeout=timeout)
         ci += 1
         if not ok or len(vals) != 1:
@@ -246,7 +248,7 @@ def analyse(text, died, scn, label, args):
     if scn != "phase2_sync":      # synchronous contexts queued across dispatch_main(): outside the model, oracle only
         for thr, tr in sorted(traces.items()):
             tid = per[thr][0].tid
-            jobs.append((tid & MASK, 1 if tid == main_tid else 0, 0, tr))
+            jobs.append((tid & MASK, 1 if tid == main_tid else 0, 0, main_tid & MASK, tr))
             meta.append({"run": label, "thread": thr, "tid": tid, "role": "main" if tid == main_tid else roles.get(tid, "worker")})
     stats["dropped_events"] = dropped
     return fails, jobs, meta, stats, main_thr
@@ -270,7 +272,7 @@ def correspond(ctx):
         dist["runs_" + scn] = dist.get("runs_" + scn, 0) + 1
     res = coq_conform("c02mq_conf", jobs)
     counts, nev = [0] * 64, 0
-    for g, (sv, im, fl, tr), mt in zip(res, jobs, meta):
+    for g, (sv, im, fl, mn, tr), mt in zip(res, jobs, meta):
         nev += len(tr)
         i, idle = g[0], g[1]
         for k, c in enumerate(g[2:]):
@@ -289,7 +291,7 @@ def correspond(ctx):
         mism.append({"what": "the stress runs did not reach these branches of the main-queue protocol: " + ", ".join(missing),
                      "detail": {"branch_counts": {TAGS[k]: counts[k] for k in TAGS}}})
     shapes = len([c for c in counts if c])
-    samples = [dict(meta[k], first_events=[e.brief() for e in jobs[k][3][:20]]) for k in range(min(3, len(jobs)))]
+    samples = [dict(meta[k], first_events=[e.brief() for e in jobs[k][4][:20]]) for k in range(min(3, len(jobs)))]
     return {"evaluations": nev, "distinct_nontrivial": shapes,
             "rule": "stress runs of harness/c02_mainq.c, one scenario per process (direct, targeting, nested, spurious, phase2, "
                     "phase2_sync), 4..7 client threads against the main thread acting as the run loop, schedule perturbation inside "
